@@ -31,7 +31,7 @@ ANCHORS = [
     "acnportal.acnsim.network.charging_network:ChargingNetwork.is_feasible",
 ]
 REQUIRED = ["accepted_schedules_judged", "boundary_points", "vertex_points", "structure_walks", "site:caltech", "site:jpl", "site:office001",
-            "evse:basic", "evse:real", "cap:default", "cap:scaled", "sim_columns_judged", "linear_mode_points", "transformer_power_within_1pct_of_rating",
+            "evse:basic", "evse:real", "cap:default", "cap:scaled", "sim_columns_judged", "linear_mode_points", "multi_period_matrices", "multi_period_accepted", "transformer_power_within_1pct_of_rating",
             "panel_or_pod_binding"]
 BUDGET_S = {"quick": 240, "thorough": 3000}
 VLL = 120.0 * math.sqrt(3.0)
@@ -208,6 +208,7 @@ def run_case(case, obs):
 
     groups_loaded = lambda v: len({ANG[ang[i]] for i in range(n) if v[i] > 0})
     max_ratio = 0.0
+    accepted_pts, over_pts = [], []
     for k in range(case["ndirs"]):
         gw = [rng.choice([0.0, 1.0, rng.random()]) for _ in range(3)]
         if not any(gw):
@@ -264,12 +265,37 @@ def run_case(case, obs):
             obs.ev("rounded_point_rejected_not_judged")
             continue
         obs.ev("boundary_points")
+        if not mode["linear"]:
+            accepted_pts.append(s.copy())
+            over_pts.append(np.minimum(d * min(1.0, (s.max() / d.max() if d.max() > 0 else 1.0)) * rng.choice([1.08, 1.3, 2.0]), maxr))
         tight = judge_schedule(obs, net, W, ids, ang, [float(x) for x in s], wit, how)
         if tight and groups_loaded(s) >= 2:
             obs.nontrivial([obs.case_hash, k])
         for name, member, cap in W["transformers"]:
             P = VLL * sum(float(s[i]) for i, x in enumerate(ids) if member(x)) / 1000.0
             max_ratio = max(max_ratio, P / cap)
+    # ---- multi-period schedules: whatever matrix the network accepts, every one of its periods must respect the ratings
+    mode["linear"] = False
+    for _ in range(min(12, len(accepted_pts))):
+        T = rng.randint(2, 6)
+        cols = []
+        for j in range(T):
+            pool = over_pts if (over_pts and rng.random() < 0.35) else accepted_pts
+            c = pool[rng.randrange(len(pool))]
+            cols.append(c * rng.choice([1.0, 1.0, 0.5, 0.02]))
+        S = np.stack(cols, axis=1)
+        obs.ev("multi_period_matrices")
+        for lin in (False, True):
+            try:
+                acc = bool(net.is_feasible(S, linear=lin))
+            except Exception as e:
+                obs.violate("is_feasible_raised", f"is_feasible raised {type(e).__name__}: {e} on a {S.shape} schedule (linear={lin})", **wit)
+                continue
+            if acc:
+                obs.ev("multi_period_accepted")
+                for j in range(T):
+                    judge_schedule(obs, net, W, ids, ang, [float(x) for x in S[:, j]], dict(wit, periods=T, column=j, linear=lin),
+                                   "multi-period schedule, period %d of %d" % (j, T))
     # ---- recorded rates of a real simulation on the site
     if case.get("sim"):
         sim_columns(case, obs, site, basic, caps, W, rng, wit)
